@@ -1,4 +1,6 @@
 import TexcraftModel.Lemmas.C10Checks
+import TexcraftModel.Lemmas.C10Ser
+import TexcraftModel.Lemmas.C10Cst
 
 /-!
 # C10 — property theorems (TFM reader front end)
@@ -12,6 +14,10 @@ import TexcraftModel.Lemmas.C10Checks
 * `layout_roundtrip`  every consistent size table followed by a long enough body is accepted,
                       with the layout the table describes (the reader accepts what a writer emits,
                       at the level of sub-file sizes)
+* `serialize_total`, `serialize_consistent`, `raw_accepts_serialized`  the size table `serialize`
+                      writes for a `ShapeOK` file never panics, is `Consistent`, and is accepted
+* `cst_total`, `cst_step_consumes`, `cst_reads_everything`  the PL lexer/CST builder always
+                      returns a tree and warnings and reads the whole input
 * `clamp_total`, `clamp_tag_total`, `clamp_piece_total`   the index clamps of `validate_and_fix`
 * the two `example`s at the end: the pre-fix code panics at the witnesses C10-a and C10-b
 
@@ -216,6 +222,80 @@ theorem layout_roundtrip (s : Sizes) (hc : Consistent s) (body : List Nat)
 /-- Non-vacuity of `layout_roundtrip`: the size table of `cmr10.tfm`. -/
 example : Consistent ⟨324, 18, 0, 127, 36, 16, 10, 5, 88, 10, 0, 7⟩ := by
   constructor <;> decide
+
+/-! ## The size table the serialiser writes (`serialize`, counts only) -/
+
+/-- **The serialiser does not panic on its size arithmetic.** For every shape that meets
+`ShapeOK` (the bounds `From<pl::File> for File` and the PL front end establish, clause by
+clause), none of the `i16` conversions of `serialize` fails, and `valid_lf` fits. -/
+theorem serialize_total (f : FileShape) (h : ShapeOK f) : ∃ s, serializeSizes f = .ok s :=
+  ⟨_, serializeSizes_eq f h⟩
+
+/-- **What the serialiser writes is a consistent size table.** -/
+theorem serialize_consistent (f : FileShape) (h : ShapeOK f) (s : Sizes)
+    (hs : serializeSizes f = .ok s) : Consistent s := by
+  rw [serializeSizes_eq f h] at hs
+  simp only [SerOutcome.ok.injEq] at hs
+  subst hs
+  exact sizesOfShape_consistent f h
+
+/-- **The reader accepts the layout of every serialised file**: the 24 bytes `serialize`
+writes for a `ShapeOK` file, followed by the body it writes (any bytes, as many as the tables
+hold), are accepted by the repaired reader, with exactly the layout the table describes and
+without the junk warning. (`PL→TFM output is accepted by the TFM reader`, at the level of
+sub-file sizes; the hypotheses of `ShapeOK` are checked on every real pltotf output by the
+harness.) -/
+theorem raw_accepts_serialized (f : FileShape) (h : ShapeOK f) (s : Sizes)
+    (hs : serializeSizes f = .ok s) (body : List Nat) (hb : body.length = bodyBytes f) :
+    rawDeserialize (headerBytes s ++ body) = .ok (layoutOf s) false := by
+  have hc := serialize_consistent f h s hs
+  rw [serializeSizes_eq f h] at hs
+  simp only [SerOutcome.ok.injEq] at hs
+  subst hs
+  have hlf := sizesOfShape_lf f h
+  have := layout_roundtrip (sizesOfShape f) hc body (by omega)
+  rw [this]
+  congr 1
+  simp only [decide_eq_false_iff_not]
+  omega
+
+/-- The bound is attained: every table at its limit gives `lf = 32767` exactly … -/
+example : serializeSizes ⟨238, some (0, 255), 256, 16, 16, 64, 31129, 258, 0, 256, 254⟩ =
+    .ok ⟨32767, 256, 0, 255, 256, 16, 16, 64, 31387, 0, 256, 254⟩ := by decide
+example : ShapeOK ⟨238, some (0, 255), 256, 16, 16, 64, 31129, 258, 0, 256, 254⟩ :=
+  (shapeOKB_iff _).mp (by decide)
+/-- … and one more lig/kern word (what the code allowed before `fixes/C10-m.patch`) overflows
+`valid_lf`: the hypothesis `lig` of `ShapeOK` cannot be weakened. -/
+example : serializeSizes ⟨238, some (0, 255), 256, 16, 16, 64, 31130, 258, 0, 256, 254⟩ =
+    .panic .lfOverflow := by decide
+/-- C10-m's witness: 16370 steps with 16370 distinct kerns. -/
+example : serializeSizes ⟨0, some (97, 97), 2, 1, 1, 1, 16370, 0, 16370, 0, 0⟩ = .panic .lfOverflow := by decide
+
+/-! ## The PL lexer / CST builder (`pl/cst.rs`) -/
+
+/-- **Every iteration of `parse`'s main loop consumes at least one character** (a
+parenthesis, a blank, or a non-empty run of junk; an opening parenthesis may take its key,
+data or comment with it). This is why the fuel `length + 1` suffices. -/
+theorem cst_step_consumes (alnum : Char → Bool) (st : Cst.State) (h : st.rest ≠ []) :
+    (Cst.step alnum st).rest.length < st.rest.length :=
+  Cst.step_decreases alnum st h
+
+/-- **Totality of the CST builder.** For every text and every notion of "alphanumeric", the
+model of `Cst::from_pl_source_code` returns a tree and warnings: the fuel is never exhausted
+(there is no other failure in this code: no arithmetic that can overflow, no indexing). -/
+theorem cst_total (alnum : Char → Bool) (text : List Char) :
+    Cst.cstModel alnum text ≠ .outOfFuel := by
+  unfold Cst.cstModel
+  obtain ⟨st', h, _⟩ := Cst.loop_some alnum ((Cst.normalize text).length + 1)
+    ⟨[], [], [], 0, Cst.normalize text⟩ (by simp)
+  simp only [h]
+  intro hc
+  cases hc
+
+/-- The main loop stops only at the end of the input: nothing is left unread. -/
+theorem cst_reads_everything (alnum : Char → Bool) (l : List Char) :
+    ∃ st, Cst.loop alnum (l.length + 1) ⟨[], [], [], 0, l⟩ = some st ∧ st.rest = [] :=
+  Cst.loop_some alnum (l.length + 1) ⟨[], [], [], 0, l⟩ (by simp)
 
 /-! ## The index clamps of `validate_and_fix` -/
 
